@@ -57,24 +57,12 @@ func TestVF_C11_DeliveryOrder(t *testing.T) {
 }
 
 func checkC11(t *rapid.T, tr *twinRun) (skipOnDisk, dupAfterRecover, midInstall int) {
-	reps := []*replica{tr.a, tr.b}
-	if tr.c != tr.b {
-		reps = append(reps, tr.c)
-	}
-	for _, r := range reps {
+	for _, r := range tr.replicas() {
 		for _, inc := range r.incs() {
 			who := fmt.Sprintf("%s/inc%d(%s,%s)", r.name, inc.id, tr.kind, tr.variant)
 			p := inc.usm.pr()
 			proc, _ := inc.processed()
-			var want []upd
-			for _, u := range tr.model.applied {
-				if proc[u.Index] && u.Index > inc.openIndex {
-					want = append(want, u)
-				}
-			}
-			if sig, msg := checkDeliveries(p.updates, want); sig != "" {
-				vfhelp.Fail(t, "c11-"+sig, "%s restored at %d, Open index %d: %s", who, inc.startAt, inc.openIndex, msg)
-			}
+			tr.checkIncarnation(t, r, inc, "c11")
 			for _, u := range p.updates {
 				if tr.kind == kOnDisk && u.Index <= inc.openIndex {
 					vfhelp.Fail(t, "c11-ondisk-update-below-open", "%s: Update(%d) although Open returned %d", who, u.Index, inc.openIndex)
